@@ -824,7 +824,9 @@ def rule_r3(facts, rep, rid="C01-R3"):
         iff = [p for p in ps if p.get("k") == "if"]
         cond = fb.show(iff[0]["c"]) if iff else "?"
         key = "%s|early-return:%d" % (f.def_, i)
-        if "is_none()" in cond and "node()" in cond:
+        tests_ = controlling_tests(c, r)
+        # `if iter.node().is_none() { return .. }`, `let Some(node) = iter.node() else { return .. }`, `match iter.node() { None => return .., .. }`, `iter.node()?`
+        if ("is_none()" in cond and "node()" in cond) or (tests_ and absent_test(c, tests_[0], "::node")):
             rep.ok(rid, key, "guard `%s`" % cond, loc(f, r), nontrivial=False)
         else:
             rep.violation(rid, key, "new early return under `%s` in the projector: the rest of the note is not emitted when it fires" % cond, loc(f, r))
